@@ -246,6 +246,8 @@ def run(ctx):
         if depth <= 0:
             return
         for c in guards._imports(ix, q):
+            if isinstance(c, tuple):
+                c = c[0]
             c2 = sym.subst(c, m) if m else c
             fn2 = ix.call_target(c2)
             if fn2 is None:
